@@ -17,8 +17,8 @@ Accepted grammar (anything else raises Refuse, the caller then reports the proof
              expr // LIT | expr % LIT   (LIT a positive int literal: Z.div / Z.modulo are Python's floor
              division and modulo for a positive divisor, for every sign of the dividend) | -expr
   cmp      : expr (>= | > | < | <= | ==) expr        (a single comparison)
-  final    : timedelta(seconds=expr)                              for time_from_timeint
-             datetime(expr, expr, expr, tzinfo=timezone.utc)      for date_from_dateint
+  final    : timedelta(seconds=expr)  [hours= / minutes= / seconds=, each at most once]   for time_from_timeint
+             datetime(expr, expr, expr, tzinfo=timezone.utc)  [or year= month= day=]     for date_from_dateint
   third    : dt = date_from_dateint(P1) + time_from_timeint(P2);
              if as_datetime64: return to_datetime64(dt)  else: return dt
 
@@ -84,13 +84,33 @@ def _final(call, env, kind):
     if not (isinstance(call, ast.Call) and isinstance(call.func, ast.Name)):
         _refuse(call, "return value must be a direct call")
     if kind == "time":
-        if call.func.id != "timedelta" or call.args or len(call.keywords) != 1 or call.keywords[0].arg != "seconds":
-            _refuse(call, "expected timedelta(seconds=<expr>)")
-        return _expr(call.keywords[0].value, env)
-    if call.func.id != "datetime" or len(call.args) != 3 or len(call.keywords) != 1 \
-            or call.keywords[0].arg != "tzinfo" or not _is_utc(call.keywords[0].value):
+        # timedelta(seconds=e) or any of hours= / minutes= / seconds= (each at most once): total seconds
+        weights = {"hours": 3600, "minutes": 60, "seconds": 1}
+        seen = [k.arg for k in call.keywords]
+        if call.func.id != "timedelta" or call.args or not seen or len(set(seen)) != len(seen) \
+                or any(k not in weights for k in seen):
+            _refuse(call, "expected timedelta(seconds=<expr>) (hours= / minutes= also accepted)")
+        terms = []
+        for k in call.keywords:
+            e = _expr(k.value, env)
+            terms.append(e if weights[k.arg] == 1 else "(%s * %d)" % (e, weights[k.arg]))
+        return terms[0] if len(terms) == 1 else "(" + " + ".join(terms) + ")"
+    # datetime(y, m, d, tzinfo=timezone.utc), positional or year= / month= / day=
+    if call.func.id != "datetime" or len(call.args) > 3:
         _refuse(call, "expected datetime(<y>, <m>, <d>, tzinfo=timezone.utc)")
-    return "(%s, %s, %s)" % tuple(_expr(a, env) for a in call.args)
+    names = ["year", "month", "day"]
+    vals = dict(zip(names, call.args))
+    tz = None
+    for k in call.keywords:
+        if k.arg == "tzinfo" and tz is None:
+            tz = k.value
+        elif k.arg in names and k.arg not in vals:
+            vals[k.arg] = k.value
+        else:
+            _refuse(call, "unexpected argument %r of datetime()" % k.arg)
+    if tz is None or not _is_utc(tz) or len(vals) != 3:
+        _refuse(call, "expected datetime(<y>, <m>, <d>, tzinfo=timezone.utc)")
+    return "(%s, %s, %s)" % tuple(_expr(vals[n], env) for n in names)
 
 
 def _block(stmts, env, kind, ind):
